@@ -83,7 +83,7 @@ func intsStr(a []int) string {
 func runNativeBatch(bin, dir, batchFile string, timeout time.Duration) ([]byte, error) {
 	cmd := exec.Command(bin, "-test.run", "^TestZZReplay$", "-test.v", "-test.timeout", "600s")
 	cmd.Dir = dir
-	cmd.Env = append(os.Environ(), "ZZ_BATCH="+batchFile)
+	cmd.Env = append(os.Environ(), "ZZ_BATCH="+batchFile, "TZ=UTC")
 	var buf bytes.Buffer
 	cmd.Stdout = &buf
 	cmd.Stderr = &buf
